@@ -101,4 +101,10 @@ CHECKS = {
         "note": "Trusted: harness value model; the reference writer for generating texts; the look-ahead slack of 16 bytes.",
         "design_ref": "DESIGN.md §4 C11",
     },
+    "C20": {
+        "technique": "reference-program monitor: eight-tag precedence chain and a hand-written macro scanner compared with dict_to_dis / Dict::dis / dis_macro over all presence subsets and generated patterns",
+        "level": "Precedence complete over 256 subsets x 12 variants x 2 defaults; 3.7e5 (quick) / 1.8e7 (thorough) macro patterns.",
+        "note": "Trusted: the reference scanner as the reading of the macro syntax in the statement.",
+        "design_ref": "DESIGN.md §4 C20",
+    },
 }
